@@ -12,6 +12,18 @@ NA = [
 
 # property -> (technique, level text, level note, design ref)
 CLAIMED = {
+ "C10": ("CFG rules on fairness.go and Run + a query over every generated critical-section literal (252) for choice ids, either-switch cases and with-selection bounds",
+         "Decides the structural clauses of 'choices in range, every combination tried': returned counts are range-checked and digits initialised modulo their ceiling (FC-RANGE); the oracle is advanced exactly once per attempt between the .pc read and Body, keyed by the label (FC-BEGIN); the odometer increment starts at the deepest digit, visits every digit, stores modulo the digit's ceiling and propagates the carry, label change resets and id/bound change truncates (FC-CARRY); in all generated code choice ids are distinct literals per critical section, either-switches have exactly the cases 0..n-1 and with-selections use Len of the same set after the empty-set abort (FC-IDS). The combinatorial exactly-once claim over run-time attempt sequences is not decided.",
+         "trusts go/types and go/cfg", "DESIGN.md section 4, C10"),
+ "C13": ("CFG guard rules and composite-literal/value-flow queries on crdt.go + field-effect sets",
+         "Decides that every state sent to a peer is getStableValue() (snapshot exactly while a section writes, under the lock); that the merger updates the snapshot too so Abort cannot discard merged peer state; that the broadcast budget is armed in Commit; that every received state is queued and only the merger drains the queue; and that Abort restores every field the section operations write. Eventual delivery/convergence (liveness) is not decided.",
+         "trusts go/types and go/cfg; two defects found by these rules were repaired in /repo (fix: 9b0fc854, 07041e5d)", "DESIGN.md section 4, C13"),
+ "C18": ("CFG dominance/guard rules on Run/commit/abort/Read/Write + per-carrier value-flow query for the commit-time clock",
+         "Decides that each attempt is begun once and logged exactly once (commit events only past the pre-commit test and after all resource commits; abort events after all rollbacks); accesses are recorded only by Read/Write, only on success, with that operation's name/indices/value; the own clock component is incremented exactly once per attempt between BeginEvent and Body and the logged clock is read from the sink at logging time; Read witnesses the value's clock before stripping and Write wraps with the writer's clock; the old-value hint receiver is armed/disarmed around WriteValue; value carriers attach the writer's clock at commit (two mailbox carriers are recorded known findings, demonstrated). Replayability of reads and multi-hop dominance are not decided.",
+         "trusts go/types and go/cfg; one defect repaired in /repo (fix: e3e63bc1), two recorded in known_findings.json", "DESIGN.md section 4, C18"),
+ "C19": ("CFG guard/path rules on Monitor.RunArchetype, SingleFailureDetector.mainLoop and ReadValue + field-effect purity",
+         "Decides that RunArchetype stores alive before Run, finished/failed on every normal exit according to Run's error and failed on every path after a recovered panic; that every poll iteration stores a state, the dial-error/RPC-error/timeout successors store the constant failed, a reply is stored only without error and timeout, ErrShutdown forces a re-dial and reply/completion channel are per-poll; that ReadValue writes nothing, cannot wait longer than one Sleep(pullInterval) and maps uninitialized->abort, alive->FALSE, every other state->TRUE. The k-polling-interval bound (timing) is not decided.",
+         "trusts go/types and go/cfg", "DESIGN.md section 4, C19"),
  "C06": ("CFG guard/dominance rules on every reader/writer mailbox and channel type + field-effect and async-join rules",
          "Decides, on all paths of the TCP receiver, the TCP sender and the five reader resources, the structural clauses of transactional FIFO delivery: publish only on the commit tag after a successful ack, whole buffer as one record, buffer reset on begin and after publishing (MB-PUBLISH); Abort re-queues in-progress reads in front, Abort and Commit clear them (MB-REDELIVER); the backlog is served before the channel and every returned message is recorded (MB-BACKLOGFIRST); tag protocol exhaustive and conditioned on the section flag, section finished only after the decoded ack (MB-TAGS); resend buffer mirrors what was sent (MB-RESEND); OutputChan buffers until Commit, sends in order, and an asynchronous Commit/Abort/PreCommit is joined through its returned channel (CH-DEFER, ASYNC-JOIN); length counts pending messages only (MB-LEN); plus the RES-RESTORE/RES-PUBLISH instances. The history property (no loss/duplication/reordering over all interleavings) itself is not decided.",
          "trusts go/types, go/cfg and the reader-type table (backlog / in-progress / channel field names per type) in checker/rules/mailbox.go",
